@@ -2,60 +2,12 @@
 // get_from_object, get_from_array, skip_string_unchecked2 — against the same object_lookup / array_lookup specs
 // the checked walkers are proved against (frag_walk.vt.rs), under the unsafe API's own precondition: the value the
 // walker is started on is well formed.
-pub open spec fn is_lit_or_num_char(c: u8) -> bool {
-    is_digit(c) || c == 0x2d || c == 0x2b || c == 0x2e || c == 0x65 || c == 0x45      // number characters
-    || c == 0x72 || c == 0x75 || c == 0x61 || c == 0x6c || c == 0x73                   // r u a l s  (true/false/null)
-    || c == 0x74 || c == 0x66 || c == 0x6e                                             // t f n
-}
-pub proof fn lemma_digits_numchars(s: Seq<u8>, i: int)
-    requires 0 <= i <= s.len(),
-    ensures forall|j: int| i <= j < digits_end(s, i) ==> is_lit_or_num_char(#[trigger] s[j]),
-{
-    lemma_digits_end_bounds(s, i);
-}
-pub proof fn lemma_number_numchars(s: Seq<u8>, p: int)
-    requires 0 <= p <= s.len(), number_end(s, p).is_some(),
-    ensures forall|j: int| p <= j < number_end(s, p).unwrap() ==> is_lit_or_num_char(#[trigger] s[j]),
-{
-    lemma_number_end_bounds(s, p);
-    let p1 = if at(s, p, 0x2d) { p + 1 } else { p };
-    lemma_digits_end_bounds(s, p1);
-    lemma_digits_numchars(s, p1);
-    let p2 = if s[p1] == 0x30 { p1 + 1 } else { digits_end(s, p1) };
-    if at(s, p2, 0x2e) {
-        lemma_digits_end_bounds(s, p2 + 1); lemma_digits_numchars(s, p2 + 1);
-        let p3 = digits_end(s, p2 + 1);
-        if at(s, p3, 0x65) || at(s, p3, 0x45) {
-            let q1 = if at(s, p3 + 1, 0x2d) || at(s, p3 + 1, 0x2b) { p3 + 2 } else { p3 + 1 };
-            lemma_digits_end_bounds(s, q1); lemma_digits_numchars(s, q1);
-        }
-    } else if at(s, p2, 0x65) || at(s, p2, 0x45) {
-        let q1 = if at(s, p2 + 1, 0x2d) || at(s, p2 + 1, 0x2b) { p2 + 2 } else { p2 + 1 };
-        lemma_digits_end_bounds(s, q1); lemma_digits_numchars(s, q1);
-    }
-}
-/// a well-formed scalar that is not a string (number or literal) consists of number / literal characters only:
-/// none of them is a quote, a bracket, a comma or whitespace
-pub proof fn lemma_scalar_chars(s: Seq<u8>, p: int)
-    requires 0 <= p < s.len(), ws_end(s, p) == p, value_end(s, p).is_some(),
-        s[p] != 0x22 && s[p] != 0x7b && s[p] != 0x5b,
-    ensures forall|j: int| p <= j < value_end(s, p).unwrap() ==> is_lit_or_num_char(#[trigger] s[j]),
-{
-    let e = value_end(s, p).unwrap();
-    if s[p] == 0x2d || is_digit(s[p]) { lemma_number_numchars(s, p); }
-    else {
-        let rest = if s[p] == 0x74 { rue() } else if s[p] == 0x66 { alse() } else { ull() };
-        assert(lit_end(s, p + 1, rest) == Some(e));
-        assert forall|j: int| p <= j < e implies is_lit_or_num_char(#[trigger] s[j]) by {
-            if j > p { assert(s[j] == s.subrange(p + 1, e)[j - p - 1]); assert(s.subrange(p + 1, e) == rest); }
-        }
-    }
-}
-
+//@include specs/scalar_chars.rs
 impl<'de, R: Reader<'de>> Parser<R> {
-    // bitmap container skipper (skip_container -> skip_container_loop): NOT under contract (64-lane bit kernels are
-    // proved by Kani: get_string_bits, prefix_xor, escaped bits; the bracket-counting loop does not finish in CBMC).
-    // ASSUMED: started just after the opening bracket of a well-formed container it stops just after its closing one.
+    // bitmap container skipper: proved in unit `container` against its scalar definition (skip_container_post); the
+    // contract below is that one turned into grammar terms by lemma_skip_container_grammar (theorem_container_scan,
+    // proved in the same unit): started just after the opening bracket of a well-formed container it succeeds and
+    // stops just after the closing one.
     #[verifier::external_body]
     pub fn skip_container(&mut self, left: u8, right: u8) -> (res: Result<()>)
         requires old(self).pinv(), (left == 0x7b && right == 0x7d) || (left == 0x5b && right == 0x5d),
